@@ -843,8 +843,11 @@ func (h cachedHistogram) ValueBucket(
 	)
 
 	return reportSamplesFunc(func(value int64) {
-		m.Value.Count = value
-		rep.reportCopyMetric(m, size, bucket, bucketID)
+		// n.b. Work on a copy: the handle may be used from several
+		//      goroutines at once.
+		mc := m
+		mc.Value.Count = value
+		rep.reportCopyMetric(mc, size, bucket, bucketID)
 	})
 }
 
@@ -874,8 +877,11 @@ func (h cachedHistogram) DurationBucket(
 	)
 
 	return reportSamplesFunc(func(value int64) {
-		m.Value.Count = value
-		rep.reportCopyMetric(m, size, bucket, bucketID)
+		// n.b. Work on a copy: the handle may be used from several
+		//      goroutines at once.
+		mc := m
+		mc.Value.Count = value
+		rep.reportCopyMetric(mc, size, bucket, bucketID)
 	})
 }
 
